@@ -203,6 +203,12 @@ func (w *w2) judgeFencing() {
 			}
 		case "stale":
 			stale, why = true, "a generation lower than the one its own latest join reply carried"
+		case "anon":
+			// no member id and generation -1: not a member of any generation. It is stale whenever the
+			// group demonstrably had a live member of one generation on both sides of the request.
+			if e.kind == "commit" && w.groupActiveAcross(e) {
+				stale, why = true, "no member id and generation -1 while the group had an active member"
+			}
 		}
 		if !stale {
 			continue
@@ -229,6 +235,36 @@ func (w *w2) judgeFencing() {
 		}
 		last[e.group] = e
 	}
+}
+
+// groupActiveAcross: some member of e's group had a request of one generation accepted before e was
+// invoked and another one of the same generation accepted after e returned.
+func (w *w2) groupActiveAcross(e *ev) bool {
+	type mg struct {
+		m string
+		g int32
+	}
+	before := map[mg]bool{}
+	for _, o := range w.hist {
+		if o == e || !o.answered || o.code != 0 || o.group != e.group || o.deviant != "" || o.reqMember == "" {
+			continue
+		}
+		if o.kind != "hb" && o.kind != "commit" && o.kind != "sync" {
+			continue
+		}
+		if o.ret < e.invoke {
+			before[mg{o.reqMember, o.reqGen}] = true
+		}
+	}
+	for _, o := range w.hist {
+		if o == e || !o.answered || o.code != 0 || o.group != e.group || o.deviant != "" {
+			continue
+		}
+		if (o.kind == "hb" || o.kind == "commit" || o.kind == "sync") && o.invoke > e.ret && before[mg{o.reqMember, o.reqGen}] {
+			return true
+		}
+	}
+	return false
 }
 
 // ---------------------------------------------------------------- C14
